@@ -11,7 +11,7 @@ src, first = sys.argv[1], int(sys.argv[2])
 for i in range(1, 21):
     pid = "C%02d" % i
     out = os.path.join(src, pid, "out")
-    for k in (1, 2):
+    for k in (1, 2, 3):
         patch = os.path.join(out, "patch%d.diff" % k)
         if not os.path.exists(patch) or os.path.getsize(patch) == 0:
             continue
